@@ -542,6 +542,15 @@ def one_case(chk, drv, it, stats):
     rs0 = S['bsplines'][0]
     rs = BSplines(make_knots(rs0.breaks, 3, False), 3, False, False) if rs0.cubic_uniform else rs0
     nodes = S['eta'][0]
+    if cs['func_rhs'] and not cs['manufactured'] and it % 3 != 1 and nr >= 3:
+        # the potential lives on radial nodes that are NOT the interpolation points of the spline space (a function right-hand side needs
+        # no interpolation): the solution is to be evaluated at the nodes of the grid it is written to
+        g_ = np.asarray(nodes, float)
+        mv_ = np.array([0.0] + [(0.3 if j % 2 else -0.25) * (g_[j + 1] - g_[j] if j % 2 else g_[j] - g_[j - 1]) for j in range(1, nr - 1)] + [0.0])
+        nodes = g_ + mv_
+        S['eta'][0] = nodes
+        cs['nodes_off_greville'] = True
+        chk.count('function right-hand side, potential on nodes other than the Greville points')
     for k_, (spec_, _) in list(cs['coefs'].items()):
         if spec_[0] == 'hinge':
             # place the hinge on an interior break point (half a cell away from the nearest quadrature point of an odd rule, at least
